@@ -352,7 +352,7 @@ def _connect_reader(ctx, R, roles, T):
     for rn in g.live_nodes():
         if rn.kind == "stmt" and isinstance(rn.ast, ast.Return):
             rt = T.term(f, rn, rn.ast.value)
-            ok = rt == ("tuple",) + tuple(("proj", pt, i) for i in range(4))
+            ok = rt == ("tuple",) + tuple(("proj", pt, i) for i in range(4)) or rt == pt      # field by field, or the packet tuple itself
             R.check(ok, "HS-reader", "%s|%s" % (f.qualname, norm_stmt(rn.ast)), "returns the packet as read", "connect-time reader returns %s" % show(rt), f.loc(rn.ast))
             inexp = any(fa[0][0] == "in" and fa[1] is True and fa[0][2] == key(ast.Name(id=expp, ctx=ast.Load())) for fa in df.facts(rn))
             R.check(inexp, "HS-reader", "%s|%s|expected" % (f.qualname, norm_stmt(rn.ast)), "only an expected command is returned (stray packets are skipped)",
